@@ -211,27 +211,6 @@ def fit_case(spec, ctx):
                     ad.score(X)  # domain: the initial score must exist
             except Exception:
                 ctx.skip("initial-score-undefined")
-            # domain: the filter's covariance stays in a range in which the EKF's own arithmetic works. A model without
-            # process noise whose Jacobian exceeds 1 grows the covariance geometrically along the data (1e13 within 21
-            # rows was seen); P - K H P then returns rounding noise, the filter refuses its own result and the
-            # AssertionError escapes from fit. That is C09's subject (bounded covariances), not a verdict on fit.
-            try:
-                f0 = ad.export_python()
-                x_, P_ = f0.State(), f0.Covariance()
-                worst = 0.0
-                c_ = f0.control_size
-                for row in X:
-                    x_, P_ = f0.process_model(0.1, x_, P_, f0.Control.from_data(np.asarray(row[:c_], float).reshape((c_, 1))))
-                    worst = max(worst, float(np.max(np.abs(P_.data))))
-                    rest = np.asarray(row[c_:], float)
-                    for key in sorted(f0.sensor_models):
-                        size = len(f0.sensor_models[key].readings)
-                        z, rest = rest[:size], rest[size:]
-                        x_, P_ = f0.sensor_model(state=x_, covariance=P_, sensor_key=key, sensor_reading=f0.make_reading(key, data=z.reshape((size, 1))))
-            except Exception:
-                worst = float("inf")
-            if not worst <= 1e6:
-                ctx.skip("covariance-leaves-the-conditioned-range-along-the-data")
             try:
                 with warnings.catch_warnings():
                     warnings.simplefilter("ignore")
